@@ -49,9 +49,15 @@ ASSUMPTIONS = ['pyshim (Python substitute for awkward._ext) transports every C++
 
 
 # ---------------------------------------------------------------------------------------------- building / running
-def build():
-    """Rocq sources of /verif/cpy/coq (needs the core .vo files) + extraction + pyrun"""
+DRIVERS = ('pydrv',)          # the driver behind pyshim: a props module that uses these halves must (re)build it
+
+
+def build(impl=True):
+    """(re)build libawkward + pydrv from /repo's current tree (so that pyshim serves the code under test), the Rocq
+    sources of /verif/cpy/coq (needs the core .vo files), the extraction and pyrun"""
     os.makedirs(BCPY, exist_ok=True)
+    if impl:
+        C.build_impl(False, DRIVERS)
     r = C.sh('cd %s && ([ -f Makefile.coq ] && [ Makefile.coq -nt _CoqProject ] || coq_makefile -f _CoqProject -o Makefile.coq) '
              '>/dev/null 2>&1; timeout 1500 make -f Makefile.coq -j8 2>&1 | tail -30' % COQ_DIR)
     if r.returncode != 0 or 'Error' in r.stdout:
@@ -991,6 +997,11 @@ for _p in GENERATORS:
 
 
 # ---------------------------------------------------------------------------------------------- signatures
+def has_strnode(l):
+    return isinstance(l, list) and ((len(l) > 1 and l[0] == 'par' and l[1] in ('string', 'bytestring'))
+                                    or any(has_strnode(x) for x in l))
+
+
 def signature(prop, c, impl, verdict):
     """stable key of a known defect of the pinned tree, or None"""
     tg = c.meta.get('tags', {})
@@ -1000,15 +1011,12 @@ def signature(prop, c, impl, verdict):
     msg = unhex(impl)
     if impl.startswith('err') and 'cannot broadcast' in msg and ' of length ' in msg:
         if any(reg_untrimmed(l) for l in layouts_of(c)):
-            return 'regular-broadcast-tooffsets-untrimmed-content'
+            return 'regular-excess-content-same-offsets-shortcut'
     lays = layouts_of(c)
     if impl.startswith('err runtime') and 'index -1 is out of bounds' in msg and '_util.py' in msg:
         return 'broadcast-all-same-offsets-empty-indexerror'
     if c.op == 'concatenate' and tg.get('has_str'):
         return 'mergeable-parameters-of-wrapper-node'
-    if c.op in ('concatenate', 'fill_none') and any(has_node(l, ('unm',)) for l in lays) \
-            and verdict.startswith('viol value') and not impl.startswith('err'):
-        return 'unmasked-fillna-recurses'
     if any(has_reg0(l) for l in lays):
         if impl.startswith('err') and 'RegularArray of size' in msg:
             return 'regular-size1-to-size0'
@@ -1041,6 +1049,9 @@ def signature(prop, c, impl, verdict):
                 return 'argminmax-nonlocal-positions'
         return sg
     if prop == 'C05':
+        if f in ('unflatten', 'rt_unflatten') and verdict.startswith('viol closure') and impl.startswith('ok') \
+                and any(has_strnode(l) for l in lays):
+            return 'axis-into-string-characters'
         if f == 'num' and rax == 0 and lays and top_node(lays[0]) == 'rec':
             return 'num-axis0-recordarray-returns-record'
         if f in ('unflatten', 'rt_unflatten') and tg.get('lead0'):
@@ -1199,6 +1210,9 @@ def main():
     prop = a.prop.upper()
     if not a.no_build:
         build()
+    dirty = C.sh('git -C %s status --short' % C.REPO).stdout.strip()
+    if dirty:
+        C.log('NOTE: %s has uncommitted changes (seeded?): %s' % (C.REPO, dirty.replace(chr(10), '; ')[:200]))
     rng = random.Random(a.seed)
     cases = replay_cases(a.replay) if a.replay else CASES[prop](rng, a.tier)
     C.log('%d cases' % len(cases))
